@@ -48,16 +48,19 @@ def run_witness(w):
         return bool(j.get("violated")), j
 
 def witnesses_for(label, registry):
-    best = None
     if label.endswith(".total"):
         fn = label[:-6].split("::")[-1]
         ws = registry.FN_WITNESSES.get(fn)
         if ws: return ws
-    for pref, ws in registry.WITNESSES.items():
+    # every registered prefix of the label contributes, most specific first
+    out, seen = [], set()
+    for pref, ws in sorted(registry.WITNESSES.items(), key=lambda kv: -len(kv[0])):
         if label == pref or label.startswith(pref):
-            if best is None or len(pref) > len(best[0]):
-                best = (pref, ws)
-    return best[1] if best else []
+            for w in ws:
+                k = json.dumps(w, sort_keys=True)
+                if k not in seen:
+                    seen.add(k); out.append(w)
+    return out
 
 def make_replay(prop, failure, registry):
     """returns path of the replay file; sets last_found_input"""
